@@ -1,56 +1,624 @@
-"""C06 - Beacon metadata survives RSA transport; session keys derive from it (structural part)."""
+"""C06 - Beacon metadata survives RSA transport; session keys derive from it (structural part).
+
+The rules are phrased as semantic necessary conditions and locate their subjects by role:
+
+* values are looked at after `inline` (single-definition temporaries substituted), arguments through their parameter
+  binding, constants through constant evaluation;
+* the rejection rules of decrypt_metadata are evaluated by a forward value propagation over the CFG (`_Flow`) for a
+  concrete scenario - the decryption result is the sentinel / the empty string / a real plaintext whose parsed magic is
+  or is not 0xBEEF: locals carry concrete or symbolic values (rebinding, flags, helper results with several returns
+  are followed), every test that can be evaluated for the values that reach it keeps only its feasible edge, and the
+  rule asks whether a return (or the struct parse) is still reached;
+* the layout and PKCS#1 bounds are compared as linear forms (`len(m) - 8`, `-8 + len(m)`, `len(m) - (4 + 4)` are the same);
+* session-key derivations are found by *classifying* expressions (SHA-256 half, (aes, hmac) pair, key container) through
+  locals, tuple unpacking, star arguments and package helpers, and checking every place where a derived value enters an
+  `aes_key` / `hmac_key` slot.
+
+A subject that cannot be located in the (normalised) code gives an undecided obligation, never a violation.
+"""
 
 from __future__ import annotations
 
 import ast
-import re
+import copy
 
 from csverif.astutil import (
-    assignments_to, body_walk, compare_parts, const_eval, dotted, fn_calls, is_const, kwarg, NotConst, params, src,
-    statements,
+    assignments_to, bind_args, const_eval, dotted, fn_calls, kwarg, NotConst, params, src, statements, strip_cast,
 )
-from csverif.cfg import ENTRY, EXIT
-from csverif.q import FuncView, calls_to, origin, raise_class, reaching_origins
+from csverif.cfg import ENTRY
+from csverif.q import FuncView, dominating_conditions, inline, origin, raise_class
 
 MAGIC = 0xBEEF
+_DERIVE = "c2.derive_aes_hmac_keys"
+_SLOTS = {"aes_key": "aes", "hmac_key": "hmac"}
+_KEY_FUNCS = ("c2.BeaconKeys.from_aes_rand", "c2.BeaconKeys.from_beacon_metadata", "c2.C2Http.__init__", "c2.C2Http.iter_recover_http",
+              "client.HttpBeaconClient.run")
 
 
-def _c(node):
+def _c(node, env=None):
     try:
-        return const_eval(node) if node is not None else None
+        return const_eval(node, env) if node is not None else None
     except NotConst:
         return None
 
 
-def _sha_halves(fn, expr):
-    """If expr is <sha256(X).digest()>[a:b] (through one local), return (src(X), a, b)."""
-    if not (isinstance(expr, ast.Subscript) and isinstance(expr.slice, ast.Slice)):
+def _cenv(ctx, f):
+    """Constant environment of function f: module-level constants of its module and constants it imports from other
+    modules of the package (the loader folds new constants only inside the module that defines them)."""
+    cache = ctx.__dict__.setdefault("_c06_cenv", {})
+    if f.fq in cache:
+        return cache[f.fq]
+    from csverif.astutil import module_env
+
+    fn = f.node
+    locs = set(params(fn)) | {n.id for n in ast.walk(fn) if isinstance(n, ast.Name) and isinstance(n.ctx, (ast.Store, ast.Del))}
+
+    def env(name):
+        if name in locs:
+            raise KeyError(name)
+        sym = ctx.rs.symtabs.get(f.module.name, {}).get(name)
+        mod = ctx.repo.modules.get(sym.module) if sym is not None and sym.kind == "const" else None
+        if mod is None or sym.name not in mod.consts:
+            raise KeyError(name)
+        try:
+            return const_eval(mod.consts[sym.name], module_env(mod))
+        except NotConst:
+            raise KeyError(name)
+
+    cache[f.fq] = env
+    return env
+
+
+# ======================================================================================================= generic helpers
+def _unbytes(e):
+    """`bytes(x)` / `cast(T, x)` -> x (a copy into an immutable bytes object does not change the value)."""
+    while True:
+        e = strip_cast(e)
+        if isinstance(e, ast.Call) and dotted(e.func) == "bytes" and len(e.args) == 1 and not e.keywords:
+            e = e.args[0]
+            continue
+        return e
+
+
+def _inl(fn, e):
+    return _unbytes(inline(fn, e))
+
+
+def _arg(call, idx, name):
+    """Positional-or-keyword argument of an external call."""
+    if len(call.args) > idx and not any(isinstance(a, ast.Starred) for a in call.args[: idx + 1]):
+        return call.args[idx]
+    return kwarg(call, name)
+
+
+def _ext_name(ctx, f, call):
+    """Dotted name of an external callee (import aliases resolved), else the literal dotted text."""
+    cal = ctx.rs.resolve_call(f, call)
+    if cal.kind == "external" and cal.fq:
+        return cal.fq
+    return dotted(call.func) or ""
+
+
+def _mentions(e, keys, stop=frozenset()):
+    """Does a sub-expression of e have one of the texts `keys`?  Sub-expressions whose text is in `stop` are not entered
+    (a test of the object *parsed from* a value is not a test of that value)."""
+    todo = [e]
+    while todo:
+        n = todo.pop()
+        if isinstance(n, ast.expr):
+            t = src(n)
+            if t in keys:
+                return True
+            if t in stop:
+                continue
+        todo.extend(ast.iter_child_nodes(n))
+    return False
+
+
+def _in_handler(fv, node):
+    return fv.enclosing(node, (ast.ExceptHandler,))
+
+
+def _raise_cls(fv, r):
+    """Class raised by `r`; a bare `raise` / `raise e` inside `except X as e` re-raises X."""
+    h = _in_handler(fv, r)
+    if r.exc is None or (h is not None and h.name and isinstance(r.exc, ast.Name) and r.exc.id == h.name):
+        return dotted(h.type) if h is not None and h.type is not None else None
+    return raise_class(r)
+
+
+# ---------------------------------------------------------------------------------------------------------- linear forms
+def _lin(e, atom=None):
+    """Linear form {atom text: coefficient, "": constant} of an (inlined) integer expression; None if not linear."""
+    c = _c(e)
+    if isinstance(c, int) and not isinstance(c, bool):
+        return {"": c}
+    if isinstance(e, ast.BinOp) and isinstance(e.op, (ast.Add, ast.Sub)):
+        a, b = _lin(e.left, atom), _lin(e.right, atom)
+        if a is None or b is None:
+            return None
+        sg = 1 if isinstance(e.op, ast.Add) else -1
+        out = dict(a)
+        for k, v in b.items():
+            out[k] = out.get(k, 0) + sg * v
+        return {k: v for k, v in out.items() if v or k == ""}
+    if isinstance(e, ast.UnaryOp) and isinstance(e.op, (ast.USub, ast.UAdd)):
+        a = _lin(e.operand, atom)
+        if a is None:
+            return None
+        return a if isinstance(e.op, ast.UAdd) else {k: -v for k, v in a.items()}
+    if isinstance(e, ast.BinOp) and isinstance(e.op, ast.Mult):
+        for x, y in ((e.left, e.right), (e.right, e.left)):
+            k = _c(x)
+            if isinstance(k, int) and not isinstance(k, bool):
+                a = _lin(y, atom)
+                return None if a is None else {n: k * v for n, v in a.items()}
         return None
-    base = origin(fn, expr.value)
-    if isinstance(base, ast.Call) and isinstance(base.func, ast.Attribute) and base.func.attr == "digest" and not base.args:
-        h = base.func.value
-        if isinstance(h, ast.Call) and dotted(h.func) in ("hashlib.sha256", "sha256") and len(h.args) == 1:
-            return (src(h.args[0]), _c(expr.slice.lower), _c(expr.slice.upper))
-        if isinstance(h, ast.Call):
-            return ("!" + (dotted(h.func) or "?"), _c(expr.slice.lower), _c(expr.slice.upper))
+    if isinstance(e, (ast.Name, ast.Attribute, ast.Call, ast.Subscript)):
+        return {(atom(e) if atom else None) or src(e): 1}
     return None
 
 
+def _lin_norm(f):
+    return {k: v for k, v in f.items() if v} if f is not None else None
+
+
+def _gt0(left, op, right, pol, atom):
+    """Linear form F such that (`left op right` is pol) <=> F > 0 over the integers."""
+    l, r = _lin(left, atom), _lin(right, atom)
+    if l is None or r is None:
+        return None
+    t = type(op)
+    if not pol:
+        t = {ast.Gt: ast.LtE, ast.GtE: ast.Lt, ast.Lt: ast.GtE, ast.LtE: ast.Gt}.get(t)
+    if t not in (ast.Gt, ast.GtE, ast.Lt, ast.LtE):
+        return None
+    a, b = (l, r) if t in (ast.Gt, ast.GtE) else (r, l)
+    out = dict(a)
+    for k, v in b.items():
+        out[k] = out.get(k, 0) - v
+    if t in (ast.GtE, ast.LtE):
+        out[""] = out.get("", 0) + 1
+    return _lin_norm(out)
+
+
+# ------------------------------------------------------------------------------ concrete evaluation of tests, CFG slices
+class _Unk(Exception):
+    pass
+
+
+class _Sym:
+    """An opaque run-time value: identical/equal to itself only.  `truth` (None = unknown) and `notnone` are the facts
+    assumed about it."""
+
+    def __init__(self, label, truth=None, notnone=False):
+        self.label, self.truth, self.notnone = label, truth, notnone
+
+    def __repr__(self):
+        return f"<{self.label}>"
+
+
+class _Env(dict):
+    """Value environment keyed by expression text (local names included); ('label', 'attr') keys give the value of an
+    attribute of a symbolic object.  Records which keys were read."""
+
+    def __init__(self, *a, hits=None, consts=None):
+        super().__init__(*a)
+        self.hits = hits if hits is not None else set()
+        self.consts = consts if consts is not None else getattr(a[0], "consts", None) if a and isinstance(a[0], _Env) else consts
+
+    def __getitem__(self, k):
+        self.hits.add(k)
+        return super().__getitem__(k)
+
+
+_BIN = {
+    ast.Add: lambda a, b: a + b, ast.Sub: lambda a, b: a - b, ast.Mult: lambda a, b: a * b, ast.FloorDiv: lambda a, b: a // b,
+    ast.Mod: lambda a, b: a % b, ast.BitOr: lambda a, b: a | b, ast.BitAnd: lambda a, b: a & b, ast.BitXor: lambda a, b: a ^ b,
+    ast.LShift: lambda a, b: a << b, ast.RShift: lambda a, b: a >> b,
+}
+_TYPES = {"bytes": bytes, "bytearray": bytearray, "str": str, "int": int, "bool": bool, "memoryview": memoryview}
+
+
+def _truth(v):
+    if isinstance(v, _Sym):
+        if v.truth is None:
+            raise _Unk()
+        return v.truth
+    return bool(v)
+
+
+def _val(e, env):
+    """Value of expression e when the expressions whose text is a key of env have the given values."""
+    k = src(e)
+    if k in env:
+        return env[k]
+    if isinstance(e, ast.Constant):
+        return e.value
+    if isinstance(e, ast.Name) and getattr(env, "consts", None) is not None:
+        try:
+            return env.consts(e.id)
+        except KeyError:
+            raise _Unk()
+    if isinstance(e, (ast.Tuple, ast.List, ast.Set)):
+        return tuple(_val(x, env) for x in e.elts)
+    if isinstance(e, ast.UnaryOp):
+        v = _val(e.operand, env)
+        if isinstance(e.op, ast.Not):
+            return not _truth(v)
+        if isinstance(v, int) and isinstance(e.op, (ast.USub, ast.Invert, ast.UAdd)):
+            return -v if isinstance(e.op, ast.USub) else ~v if isinstance(e.op, ast.Invert) else v
+        raise _Unk()
+    if isinstance(e, ast.BoolOp):
+        v = None
+        for x in e.values:
+            v = _val(x, env)
+            if _truth(v) != isinstance(e.op, ast.And):
+                return v
+        return v
+    if isinstance(e, ast.IfExp):
+        return _val(e.body if _truth(_val(e.test, env)) else e.orelse, env)
+    if isinstance(e, ast.NamedExpr):
+        return _val(e.value, env)
+    if isinstance(e, ast.Attribute):
+        b = _val(e.value, env)
+        if isinstance(b, _Sym) and (b.label, e.attr) in env:
+            return env[(b.label, e.attr)]
+        raise _Unk()
+    if isinstance(e, ast.BinOp) and type(e.op) in _BIN:
+        a, b = _val(e.left, env), _val(e.right, env)
+        if isinstance(a, _Sym) or isinstance(b, _Sym):
+            raise _Unk()
+        try:
+            return _BIN[type(e.op)](a, b)
+        except Exception:
+            raise _Unk()
+    if isinstance(e, ast.Compare):
+        left = _val(e.left, env)
+        for op, rn in zip(e.ops, e.comparators):
+            right = _val(rn, env)
+            if not _cmp(left, op, right):
+                return False
+            left = right
+        return True
+    if isinstance(e, ast.Subscript):
+        b = _val(e.value, env)
+        if isinstance(b, _Sym):
+            raise _Unk()
+        try:
+            if isinstance(e.slice, ast.Slice):
+                lo, hi, stp = (None if x is None else _val(x, env) for x in (e.slice.lower, e.slice.upper, e.slice.step))
+                return b[lo:hi:stp]
+            return b[_val(e.slice, env)]
+        except _Unk:
+            raise
+        except Exception:
+            raise _Unk()
+    if isinstance(e, ast.Call) and not e.keywords:
+        name = dotted(e.func)
+        if name in ("len", "bool") and len(e.args) == 1:
+            v = _val(e.args[0], env)
+            if name == "bool":
+                return _truth(v)
+            if isinstance(v, _Sym):
+                raise _Unk()
+            try:
+                return len(v)
+            except Exception:
+                raise _Unk()
+        if name == "isinstance" and len(e.args) == 2:
+            v = _val(e.args[0], env)
+            ts = e.args[1].elts if isinstance(e.args[1], ast.Tuple) else [e.args[1]]
+            if isinstance(v, _Sym) or not all(dotted(t) in _TYPES for t in ts):
+                raise _Unk()
+            return isinstance(v, tuple(_TYPES[dotted(t)] for t in ts))
+    raise _Unk()
+
+
+def _cmp(a, op, b):
+    sym = isinstance(a, _Sym) or isinstance(b, _Sym)
+    if isinstance(op, (ast.Is, ast.IsNot)):
+        single = (None, True, False)
+        if sym:
+            if a is not b and not (isinstance(a, _Sym) and isinstance(b, _Sym)):
+                o, k = (a, b) if isinstance(a, _Sym) else (b, a)
+                if not (k is None and o.notnone):
+                    raise _Unk()
+            same = a is b
+        elif any(a is s for s in single) or any(b is s for s in single):
+            same = a is b
+        else:
+            raise _Unk()
+        return same if isinstance(op, ast.Is) else not same
+    if isinstance(op, (ast.Eq, ast.NotEq)):
+        if sym:
+            if a is not b:
+                o, k = (a, b) if isinstance(a, _Sym) else (b, a)
+                if not (k is None and o.notnone):
+                    raise _Unk()
+            eq = a is b
+        else:
+            eq = a == b
+        return eq if isinstance(op, ast.Eq) else not eq
+    if sym:
+        raise _Unk()
+    try:
+        if isinstance(op, ast.Lt):
+            return a < b
+        if isinstance(op, ast.LtE):
+            return a <= b
+        if isinstance(op, ast.Gt):
+            return a > b
+        if isinstance(op, ast.GtE):
+            return a >= b
+        if isinstance(op, ast.In):
+            return a in b
+        if isinstance(op, ast.NotIn):
+            return a not in b
+    except Exception:
+        pass
+    raise _Unk()
+
+
+def _tv(e, env):
+    """Three-valued truth of a test (None = not decidable for the given values)."""
+    if isinstance(e, ast.UnaryOp) and isinstance(e.op, ast.Not):
+        v = _tv(e.operand, env)
+        return None if v is None else not v
+    if isinstance(e, ast.BoolOp):
+        stop = not isinstance(e.op, ast.And)  # `and` is decided by a false operand, `or` by a true one
+        unknown = False
+        for x in e.values:
+            v = _tv(x, env)
+            if v is stop:
+                # everything before it was either passed (known) or unknown; in both cases the result has this truth
+                return stop
+            if v is None:
+                unknown = True
+        return None if unknown else (not stop)
+    try:
+        return _truth(_val(e, env))
+    except _Unk:
+        return None
+
+
+def _same_value(a, b):
+    return a is b or (not isinstance(a, _Sym) and not isinstance(b, _Sym) and type(a) is type(b) and a == b)
+
+
+def _stored_names(t):
+    return [n.id for n in ast.walk(t) if isinstance(n, ast.Name) and isinstance(n.ctx, (ast.Store, ast.Del))]
+
+
+class _Flow:
+    """Forward propagation of concrete / symbolic values of locals along the CFG of f under the assumptions `fixed`
+    (an _Env: expression text -> value).  Branch edges whose test evaluates to a definite truth value for the values that
+    reach it are followed on the feasible side only.  After the run: `live(stmt)`, `value(stmt, expr)`, `opaque` = the
+    reached tests that could not be evaluated although they look at a tainted value (`taint`: expression texts; the
+    taint flows through assignments but not through the sub-expressions whose text is in `stop`)."""
+
+    NOVAL = object()
+
+    def __init__(self, ctx, f, fixed, taint=frozenset(), stop=frozenset(), magic_attr=None):
+        self.cfg, self.fn, self.fixed = ctx.cfg(f), f.node, fixed
+        self.taint, self.stop, self.magic_attr = set(taint), set(stop), magic_attr
+        self.IN = {}
+        self._opaque = {}
+        self._run()
+
+    # ------------------------------------------------------------------ evaluation
+    def _env(self, vals):
+        e = _Env(self.fixed, hits=self.fixed.hits, consts=self.fixed.consts)
+        e.update(vals)
+        return e
+
+    def _value(self, expr, vals):
+        env = self._env(vals)
+        for e in (expr, inline(self.fn, expr)):
+            try:
+                return _val(e, env)
+            except _Unk:
+                continue
+        return self.NOVAL
+
+    def _truth3(self, test, vals):
+        env = self._env(vals)
+        v = _tv(test, env)
+        return v if v is not None else _tv(inline(self.fn, test), env)
+
+    def _tainted(self, e, names):
+        todo = [e]
+        while todo:
+            n = todo.pop()
+            if isinstance(n, ast.expr):
+                t = src(n)
+                if t in self.taint or (isinstance(n, ast.Name) and n.id in names):
+                    return True
+                if t in self.stop:
+                    continue
+            todo.extend(ast.iter_child_nodes(n))
+        return False
+
+    # ------------------------------------------------------------------ transfer
+    def _bind(self, name, value_expr, vals, names, idx=None):
+        v = self._value(value_expr, vals) if idx is None else self.NOVAL
+        if v is self.NOVAL:
+            vals.pop(name, None)
+        else:
+            vals[name] = v
+        if self._tainted(value_expr, names):
+            names.add(name)
+        else:
+            names.discard(name)
+
+    def _transfer(self, st, vals, names):
+        vals, names = dict(vals), set(names)
+        heads = [st.test] if isinstance(st, (ast.If, ast.While)) else [st.iter] if isinstance(st, (ast.For, ast.AsyncFor)) else \
+            [i.context_expr for i in st.items] if isinstance(st, (ast.With, ast.AsyncWith)) else [] if isinstance(st, (ast.Try, ast.ExceptHandler, ast.FunctionDef, ast.AsyncFunctionDef, ast.ClassDef)) else [st]
+        for h in heads:
+            for n in ast.walk(h):
+                if isinstance(n, ast.NamedExpr):
+                    self._bind(n.target.id, n.value, vals, names)
+        if isinstance(st, ast.Assign):
+            for t in st.targets:
+                for te, v in _pairs(t, st.value):
+                    if isinstance(te, ast.Name):
+                        if isinstance(v, tuple):
+                            self._bind(te.id, v[0], vals, names, v[1])
+                        else:
+                            self._bind(te.id, v, vals, names)
+                    else:
+                        for nm in _stored_names(te):
+                            vals.pop(nm, None)
+                            names.discard(nm)
+        elif isinstance(st, ast.AnnAssign) and isinstance(st.target, ast.Name) and st.value is not None:
+            self._bind(st.target.id, st.value, vals, names)
+        elif isinstance(st, ast.AugAssign) and isinstance(st.target, ast.Name):
+            vals.pop(st.target.id, None)
+        elif isinstance(st, (ast.For, ast.AsyncFor)):
+            for nm in _stored_names(st.target):
+                vals.pop(nm, None)
+                names.discard(nm)
+                if self._tainted(st.iter, names):
+                    names.add(nm)
+        elif isinstance(st, (ast.With, ast.AsyncWith)):
+            for i in st.items:
+                if i.optional_vars is not None:
+                    for nm in _stored_names(i.optional_vars):
+                        vals.pop(nm, None)
+        elif isinstance(st, ast.ExceptHandler) and st.name:
+            vals.pop(st.name, None)
+        elif isinstance(st, ast.Delete):
+            for t in st.targets:
+                for nm in _stored_names(t):
+                    vals.pop(nm, None)
+        elif isinstance(st, (ast.FunctionDef, ast.AsyncFunctionDef, ast.ClassDef)):
+            vals.pop(st.name, None)
+        return vals, names
+
+    def _join(self, old, new):
+        if old is None:
+            return new
+        vals = {k: v for k, v in old[0].items() if k in new[0] and _same_value(v, new[0][k])}
+        return vals, old[1] | new[1]
+
+    @staticmethod
+    def _eq(a, b):
+        return a[1] == b[1] and a[0].keys() == b[0].keys() and all(_same_value(v, b[0][k]) for k, v in a[0].items())
+
+    def _run(self):
+        cfg = self.cfg
+        self.IN[ENTRY] = ({}, set())
+        work = [ENTRY]
+        while work:
+            n = work.pop()
+            vals, names = self.IN[n]
+            st = cfg.stmt.get(n)
+            succs = list(cfg.g.successors(n))
+            if st is not None:
+                out = self._transfer(st, vals, names)
+                if isinstance(st, (ast.If, ast.While)):
+                    v = self._truth3(st.test, out[0])
+                    self._opaque.pop(id(st), None)
+                    if v is not None:
+                        dead = cfg.edge_node(st, "false" if v else "true")
+                        succs = [x for x in succs if x != dead]
+                    elif self._looks_at(st.test, out[1]):
+                        self._opaque[id(st)] = st
+            else:
+                out = (vals, names)
+            for x in succs:
+                new = self._join(self.IN.get(x), out)
+                if x not in self.IN or not self._eq(self.IN[x], new):
+                    self.IN[x] = new
+                    work.append(x)
+
+    def _looks_at(self, test, names):
+        if self._tainted(test, names) or self._tainted(inline(self.fn, test), names):
+            return True
+        if self.magic_attr:
+            return any(isinstance(n, ast.Attribute) and n.attr == self.magic_attr for e in (test, inline(self.fn, test)) for n in ast.walk(e))
+        return False
+
+    # ------------------------------------------------------------------ results
+    @property
+    def opaque(self):
+        return list(self._opaque.values())
+
+    def live(self, st):
+        return self.cfg.has(st) and self.cfg.node(st) in self.IN
+
+    def value(self, st, expr):
+        """Value of expr when statement st starts (NOVAL if unknown / st not reached)."""
+        if not self.live(st):
+            return self.NOVAL
+        return self._value(expr, self.IN[self.cfg.node(st)][0])
+
+    def tainted(self, st, expr):
+        return self.live(st) and self._tainted(expr, self.IN[self.cfg.node(st)][1])
+
+
+# ------------------------------------------------------------------------------------------------- attribute stores
+def _pairs(target, value):
+    """(target element, value expression | (value, index)) of an assignment, tuple targets split."""
+    if isinstance(target, (ast.Tuple, ast.List)):
+        if isinstance(value, (ast.Tuple, ast.List)) and len(value.elts) == len(target.elts) and not any(isinstance(x, ast.Starred) for x in value.elts + target.elts):
+            for t, v in zip(target.elts, value.elts):
+                yield from _pairs(t, v)
+        elif not any(isinstance(x, ast.Starred) for x in target.elts):
+            for i, t in enumerate(target.elts):
+                yield t, (value, i)
+        return
+    yield target, value
+
+
+def _attr_stores(fn, attr):
+    """(stmt, target Attribute, value | (value, index) | None) for every store into an attribute named `attr`
+    (`x.attr = v`, tuple targets, `x.attr += v` -> None, `setattr(x, "attr", v)`)."""
+    out = []
+    for st in statements(fn):
+        if isinstance(st, ast.Assign):
+            for t in st.targets:
+                for te, v in _pairs(t, st.value):
+                    if isinstance(te, ast.Attribute) and te.attr == attr:
+                        out.append((st, te, v))
+        elif isinstance(st, ast.AnnAssign) and st.value is not None and isinstance(st.target, ast.Attribute) and st.target.attr == attr:
+            out.append((st, st.target, st.value))
+        elif isinstance(st, ast.AugAssign) and isinstance(st.target, ast.Attribute) and st.target.attr == attr:
+            out.append((st, st.target, None))
+        elif isinstance(st, ast.Expr) and isinstance(st.value, ast.Call) and dotted(st.value.func) == "setattr" and len(st.value.args) == 3 and _c(st.value.args[1]) == attr:
+            c = st.value
+            out.append((st, ast.copy_location(ast.Attribute(value=c.args[0], attr=attr, ctx=ast.Store()), c), c.args[2]))
+    return out
+
+
+def _is_struct(ctx, f, e, name):
+    t = ctx.rs.expr_type(f, e)
+    return bool(t) and t.startswith("struct:") and t.endswith("." + name)
+
+
+# ======================================================================================================================
 def run(ctx):
     rep = ctx.rep
     rep.explanation = (
         "Static analysis of c_c2.py/c2.py/client.py: BeaconMetadata layout arithmetic from C2_DEF (fixed part 59 bytes, "
-        "size-51 array, len-8 size field), dominance of the sentinel and magic rejections over the return of "
-        "decrypt_metadata, writer/reader agreement on the magic and the RSA cipher construction, and structural identity "
-        "of every session-key derivation site (SHA-256 halves, bound as (aes_key, hmac_key))."
+        "size-51 array, len-8 size field, compared as linear forms), reachability of a return / the struct parse in "
+        "decrypt_metadata when the decryption result is the sentinel or empty or the magic field is not 0xBEEF (CFG "
+        "specialised by concrete evaluation of the tests), writer/reader agreement on the magic and the RSA cipher "
+        "construction, and role checks of every session-key derivation (SHA-256 halves reaching aes_key / hmac_key slots, "
+        "derived from the 16 aes_rand bytes)."
     )
     rep.not_decided = ["field-for-field equality after RSA for all values", "PKCS#1 v1.5 limits (library)"]
     rep.trusted_base = ["CPython ast", "networkx dominators", "C-definition parser", "pycryptodome PKCS1_v1_5 sentinel semantics"]
-    r1(ctx)
-    r2(ctx)
-    r3_r4(ctx)
-    r5(ctx)
-    r6(ctx)
+    from csverif import AnalysisError
+
+    for rule in (r1, r2, r3_r4, r5, r6):
+        try:
+            rule(ctx)
+        except AnalysisError:
+            raise
+        except Exception as e:  # an internal error of one rule is an analysis error; the other rules are still evaluated
+            ctx.rep.error(f"internal error in C06.{rule.__name__}: {type(e).__name__}: {e}")
     # the client's session keys are the SHA-256 halves of the 16 bytes carried in the metadata: the derivation of those 16
     # bytes in the client (C19.R4, fixed width) is part of the agreement between client and server keys
     from rules import c19
@@ -58,227 +626,929 @@ def run(ctx):
     ctx.import_obligations("R7", c19.r4)
 
 
+# ================================================================================================================== R1
+def _encrypt_subject(ctx):
+    """encrypt_metadata and its metadata / key parameters (by position: the public signature)."""
+    f = ctx.repo.func("c2.encrypt_metadata")
+    ps = params(f.node)
+    return f, (ps[0] if ps else None), (ps[1] if len(ps) > 1 else None)
+
+
+def _is_param(fn, e, p):
+    e = _unbytes(origin(fn, e))
+    return isinstance(e, ast.Name) and e.id == p
+
+
+def _len_atom(fn, mp):
+    """Atom naming for size arithmetic: the serialised length of the metadata parameter, the length of its info field."""
+
+    def atom(e):
+        if isinstance(e, ast.Call) and dotted(e.func) == "len" and len(e.args) == 1 and not e.keywords:
+            x = _unbytes(e.args[0])
+            if isinstance(x, ast.Name) and x.id == mp:
+                return "LEN"
+            if isinstance(x, ast.Call) and not x.args and isinstance(x.func, ast.Attribute) and x.func.attr == "dumps" and _is_param(fn, x.func.value, mp):
+                return "LEN"
+            if isinstance(x, ast.Attribute) and x.attr == "info" and _is_param(fn, x.value, mp):
+                return "INFO"
+        return None
+
+    return atom
+
+
+def _size_stores(f, mp):
+    return [(st, t, v) for st, t, v in _attr_stores(f.node, "size") if _is_param(f.node, t.value, mp)]
+
+
 def r1(ctx):
-    cd = ctx.cdefs("c_c2").get("c2struct")
+    from csverif import AnalysisError
+
+    try:
+        cd = ctx.cdefs("c_c2").get("c2struct")
+    except AnalysisError as e:
+        # the C definitions could not be read (engine limitation, e.g. a definition assembled from several strings): an
+        # analysis error, but the other rules are still evaluated
+        ctx.rep.error(f"C06.R1: {e}")
+        return
     if cd is None:
         ctx.rep.error("anchor vanished: c2struct")
         return
+    where = "c_c2.py::C2_DEF::struct BeaconMetadata"
     s = cd.struct("BeaconMetadata")
     fixed = s.fixed_prefix_size
     info = s.field("info")
+    # info[size - k1]
     k1 = None
     if info is not None and info.count:
-        m = re.fullmatch(r"\s*size\s*-\s*(\d+)\s*", info.count)
-        k1 = int(m.group(1)) if m else None
-    f = ctx.repo.func("c2.encrypt_metadata")
-    mp = params(f.node)[0]
-    k2 = None
-    size_set = None
-    for st in statements(f.node):
-        if isinstance(st, ast.Assign) and dotted(st.targets[0]) == f"{mp}.size":
-            size_set = st
-            v = st.value
-            if isinstance(v, ast.BinOp) and isinstance(v.op, ast.Sub) and isinstance(v.left, ast.Call) and dotted(v.left.func) == "len" and dotted(v.left.args[0]) == mp:
-                k2 = _c(v.right)
-    ctx.ob("R1", "TABLE", "c_c2.py::C2_DEF::struct BeaconMetadata", "layout arithmetic",
-           info is not None and info is s.fields[-1] and k1 is not None and k2 is not None and fixed - k2 == k1,
-           f"fixed part {fixed} bytes; info[{info.count if info else None}] subtracts {k1}; encrypt_metadata sets size = len - {k2}; required fixed - {k2} == {k1}")
-    heads = [(x.name, x.type, x.offset) for x in s.fields[:3]]
-    ctx.ob("R1", "TABLE", "c_c2.py::C2_DEF::struct BeaconMetadata", "header fields",
-           heads == [("magic", "uint32", 0), ("size", "uint32", 4), ("aes_rand", "char", 8)] and s.fields[2].count == "16" and cd.endian == ">",
-           f"first fields {heads} (aes_rand[{s.fields[2].count}]) endian {cd.endian!r}; required magic@0,size@4 uint32, aes_rand char[16]@8, big-endian")
+        try:
+            lf = _lin_norm(_lin(ast.parse(info.count.strip(), mode="eval").body))
+        except SyntaxError:
+            lf = None
+        if lf is not None and set(lf) <= {"size", ""} and lf.get("size") == 1:
+            k1 = -lf.get("", 0)
+    f, mp, _kp = _encrypt_subject(ctx)
+    stores = _size_stores(f, mp) if mp else []
+    layout_ok = info is not None and info is s.fields[-1] and k1 is not None
+    if not layout_ok:
+        ctx.ob("R1", "TABLE", where, "layout arithmetic", False, f"the variable part must be the last field `info[size - k]`; got info[{info.count if info else None}]")
+    elif not stores:
+        ctx.undecided("R1", "TABLE", where, "layout arithmetic", f"fixed part {fixed} bytes, info[{info.count}]; no store of the size field of the metadata parameter was located in encrypt_metadata (see R4)")
+    else:
+        atom = _len_atom(f.node, mp)
+        for st, _t, v in stores:
+            lf = _lin_norm(_lin(_inl(f.node, v), atom)) if v is not None and not isinstance(v, tuple) else None
+            shown = src(_inl(f.node, v)) if v is not None and not isinstance(v, tuple) else "?"
+            if lf is not None and set(lf) <= {"LEN", ""} and lf.get("LEN") == 1:
+                k2 = -lf.get("", 0)
+                ctx.ob("R1", "TABLE", where, "layout arithmetic", fixed - k2 == k1,
+                       f"fixed part {fixed} bytes; info[{info.count}] subtracts {k1}; encrypt_metadata sets size = len - {k2}; required fixed - {k2} == {k1}", st)
+            elif lf is not None and set(lf) <= {"INFO", ""} and lf.get("INFO") == 1:
+                k3 = lf.get("", 0)
+                ctx.ob("R1", "TABLE", where, "layout arithmetic", k3 == k1, f"info[{info.count}] subtracts {k1}; encrypt_metadata sets size = len(info) + {k3}; required {k1}", st)
+            else:
+                ctx.undecided("R1", "TABLE", where, "layout arithmetic", f"the value stored into the size field (`{shown[:80]}`) is not of the form len(metadata) - k", st)
+    heads = [(x.name, x.offset, x.size, x.signed) for x in s.fields[:3]]
+    cnt = None
+    if len(s.fields) > 2 and s.fields[2].count:
+        try:
+            cnt = _c(ast.parse(s.fields[2].count.strip(), mode="eval").body)
+        except SyntaxError:
+            cnt = None
+    ctx.ob("R1", "TABLE", where, "header fields",
+           heads == [("magic", 0, 4, False), ("size", 4, 4, False), ("aes_rand", 8, 16, False)] and s.fields[2].type == "char" and cnt == 16 and cd.endian == ">",
+           f"first fields (name, offset, size, signed) {heads} (aes_rand {s.fields[2].type if len(s.fields) > 2 else None}[{cnt}]) endian {cd.endian!r}; required magic@0,size@4 unsigned 32 bit, aes_rand char[16]@8, big-endian")
     names = [x.name for x in s.fields]
-    ctx.ob("R1", "TABLE", "c_c2.py::C2_DEF::struct BeaconMetadata", "field count", len(names) == 17 and fixed == 59, f"{len(names)} fields, fixed {fixed} bytes (59 required): {names}")
+    ctx.ob("R1", "TABLE", where, "field count", len(names) == 17 and fixed == 59, f"{len(names)} fields, fixed {fixed} bytes (59 required): {names}")
+
+
+# ================================================================================================================== R2
+def _cipher_calls(ctx, f, meth):
+    """[(call of .<meth>(..), constructor call of its receiver | None)]"""
+    out = []
+    for c in fn_calls(f.node):
+        if isinstance(c.func, ast.Attribute) and c.func.attr == meth:
+            o = origin(f.node, c.func.value)
+            out.append((c, o if isinstance(o, ast.Call) else None))
+    rsa = [x for x in out if x[1] is not None and "PKCS1" in _ext_name(ctx, f, x[1])]
+    return rsa or out
+
+
+def _decrypt_subject(ctx):
+    """(f, decrypt call, cipher constructor) or (f, None, why)."""
+    f = ctx.repo.func("c2.decrypt_metadata")
+    dec = _cipher_calls(ctx, f, "decrypt")
+    if len(dec) != 1:
+        return f, None, f"{len(dec)} `.decrypt(..)` calls in decrypt_metadata"
+    return f, dec[0][0], dec[0][1]
+
+
+def _struct_parses(ctx, f):
+    return [c for c in fn_calls(f.node) if ctx.rs.resolve_call(f, c).kind == "struct"]
+
+
+def _scenario(ctx, f, d, result, magic=None, also=()):
+    """Value flow through decrypt_metadata when the RSA decryption `d` yields `result` and (if given) every parsed struct
+    has the magic field `magic`.  A test of the object *parsed from* the result is not a test of the result itself."""
+    fn = f.node
+    fixed = _Env(consts=_cenv(ctx, f))
+    dtexts = {src(d), src(inline(fn, d))}
+    for t in dtexts | set(also):
+        dict.__setitem__(fixed, t, result)
+    syms = {}
+    stop = set()
+    for i, c in enumerate(_struct_parses(ctx, f)):
+        sym = _Sym(f"parsed{i}", truth=True, notnone=True)
+        syms[sym.label] = c
+        for t in (src(c), src(inline(fn, c))):
+            dict.__setitem__(fixed, t, sym)
+            stop.add(t)
+        if magic is not None:
+            dict.__setitem__(fixed, (sym.label, "magic"), magic)
+    fl = _Flow(ctx, f, fixed, taint=dtexts, stop=stop, magic_attr="magic" if magic is not None else None)
+    fl.parses = syms
+    return fl
+
+
+def _is_result(e, keys):
+    """Is expression e the decryption result (possibly with a falsy result replaced by an empty constant)?"""
+    e = _unbytes(e)
+    if src(e) in keys:
+        return True
+    falsy = lambda x: isinstance(x, ast.Constant) and not x.value  # noqa: E731
+    if isinstance(e, ast.BoolOp) and isinstance(e.op, ast.Or):
+        return _is_result(e.values[0], keys) and all(falsy(v) or _is_result(v, keys) for v in e.values[1:])
+    if isinstance(e, ast.IfExp):
+        alts = [e.body, e.orelse]
+        return any(_is_result(a, keys) for a in alts) and all(falsy(a) or _is_result(a, keys) for a in alts)
+    return False
 
 
 def r2(ctx):
-    f = ctx.repo.func("c2.decrypt_metadata")
+    f, d, ctor = _decrypt_subject(ctx)
+    fn = f.node
     cfg = ctx.cfg(f)
-    fv = FuncView.of(f.node)
-    dec = [c for c in fn_calls(f.node) if isinstance(c.func, ast.Attribute) and c.func.attr == "decrypt"]
-    if len(dec) != 1:
-        ctx.ob("R2", "DOM", f, "cipher.decrypt", False, f"{len(dec)} decrypt calls")
-        return
-    d = dec[0]
-    sentinel = d.args[1] if len(d.args) > 1 else kwarg(d, "sentinel")
-    dst = fv.stmt_of(d)
-    pt = dotted(dst.targets[0]) if isinstance(dst, ast.Assign) else None
-    ct_ok = d.args and dotted(d.args[0]) == params(f.node)[0]
-    ctx.ob("R2", "AGREE", f, src(d), bool(ct_ok) and sentinel is not None, f"decrypts the blob parameter={bool(ct_ok)} with sentinel {src(sentinel)}", d)
-    rets = cfg.return_stmts()
-    sent_tests, magic_tests = [], []
-    sent_falsy = isinstance(sentinel, ast.Constant) and not sentinel.value
-    for n, st in cfg.stmt.items():
-        if not isinstance(st, ast.If):
-            continue
-        # `if not pt:` rejects a falsy sentinel (None / b"") and an empty plaintext alike
-        if sent_falsy and isinstance(st.test, ast.UnaryOp) and isinstance(st.test.op, ast.Not) and dotted(st.test.operand) == pt:
-            sent_tests.append((st, "true"))
-        elif sent_falsy and dotted(st.test) == pt:
-            sent_tests.append((st, "false"))
-        for l, op, r in compare_parts(st.test):
-            if dotted(l) == pt and isinstance(op, (ast.Is, ast.Eq)) and src(r) == src(sentinel):
-                sent_tests.append((st, "true"))
-            elif dotted(l) == pt and isinstance(op, (ast.IsNot, ast.NotEq)) and src(r) == src(sentinel):
-                sent_tests.append((st, "false"))
-            elif (dotted(l) or "").endswith(".magic") and isinstance(op, ast.NotEq):
-                magic_tests.append((st, "true", _c(r), dotted(l)))
-            elif (dotted(l) or "").endswith(".magic") and isinstance(op, ast.Eq):
-                magic_tests.append((st, "false", _c(r), dotted(l)))
-    ok = False
-    detail = "no test of the decrypt result against the sentinel"
-    for st, bad in sent_tests:
-        e = cfg.edge_node(st, bad)
-        leaks = cfg.reaches(e, EXIT)
-        dom = all(cfg.dominates(cfg.node(st), cfg.node(r)) for r in rets)
-        ok = not leaks and dom
-        detail = f"sentinel edge can return normally={leaks}; test dominates every return={dom}"
-        for rs in cfg.raise_stmts():
-            if cfg.dominates(e, cfg.node(rs)):
-                ctx.ob("R2", "EXIT", f, src(rs), raise_class(rs) == "ValueError", f"undecryptable blob raises {raise_class(rs)}", rs)
-    ctx.ob("R2", "DOM", f, "sentinel test", ok, detail, dst)
-    ok = False
-    detail = "no test of the magic field"
-    for st, bad, const, who in magic_tests:
-        e = cfg.edge_node(st, bad)
-        leaks = cfg.reaches(e, EXIT)
-        dom = all(cfg.dominates(cfg.node(st), cfg.node(r)) for r in rets)
-        same = all(dotted(r.value) == who.rsplit(".", 1)[0] for r in rets)
-        ok = not leaks and dom and const == MAGIC and same
-        detail = f"magic compared with {const!r} (0xBEEF required); mismatch edge can return={leaks}; dominates every return={dom}; the returned object is the one tested={same}"
-        for rs in cfg.raise_stmts():
-            if cfg.dominates(e, cfg.node(rs)):
-                ctx.ob("R2", "EXIT", f, src(rs), raise_class(rs) == "ValueError", f"bad magic raises {raise_class(rs)}", rs)
-    ctx.ob("R2", "DOM", f, "magic test", ok, detail, f.node)
-    for r in rets:
-        o = origin(f.node, r.value)
-        cal = ctx.rs.resolve_call(f, o) if isinstance(o, ast.Call) else None
-        ok = cal is not None and cal.kind == "struct" and cal.struct[2] == "BeaconMetadata" and o.args and dotted(o.args[0]) == pt
-        ctx.ob("R2", "AGREE", f, "return " + src(r.value), bool(ok), "returns BeaconMetadata parsed from the decrypted bytes" if ok else f"returns {src(o)}", r)
+    fv = FuncView.of(fn)
     ctx.ob("R2", "EXIT", f, "falls off end", not cfg.falls_off_end(), "cannot return None implicitly")
+    if d is None:
+        ctx.undecided("R2", "DOM", f, "RSA decryption of the blob", f"cannot locate the PKCS#1 decryption: {ctor}")
+        return
+    ps = params(fn)
+    ct = _arg(d, 0, "ciphertext")
+    sentinel = _arg(d, 1, "sentinel")
+    ct_ok = ct is not None and ps and _is_param(fn, ct, ps[0])
+    ctx.ob("R2", "AGREE", f, "RSA decryption of the blob", bool(ct_ok) and sentinel is not None,
+           f"decrypts the whole blob parameter={bool(ct_ok)} (`{src(_inl(fn, ct))[:60] if ct is not None else None}`) with sentinel {src(sentinel)}", d)
+    rets = cfg.return_stmts()
+    dst = fv.stmt_of(d)
+    dtexts = {src(d), src(inline(fn, d))}
+    # ---- the sentinel (what the library hands back for an undecryptable blob) never reaches a return
+    if sentinel is not None:
+        sv = inline(fn, sentinel)
+        also = ()
+        try:
+            val = const_eval(sv)
+        except NotConst:
+            val = _Sym("sentinel")
+            also = (src(sv), src(sentinel))
+        fl = _scenario(ctx, f, d, val, also=also)
+        leak = [r for r in rets if fl.live(r)]
+        detail = f"with the decryption result == sentinel ({src(sentinel)}): returns still reachable={len(leak)} of {len(rets)}"
+        if leak and fl.opaque:
+            ctx.undecided("R2", "DOM", f, "sentinel test", detail + f"; a test of the result could not be evaluated: {[src(s.test)[:50] for s in fl.opaque]}", dst)
+        else:
+            ctx.ob("R2", "DOM", f, "sentinel test", not leak, detail, dst)
+        for rs in cfg.raise_stmts():
+            if fl.live(rs) and not leak:
+                cls = _raise_cls(fv, rs)
+                if cls is None:
+                    ctx.undecided("R2", "EXIT", f, "undecryptable blob: raised class", f"class of `{src(rs)[:60]}` not determined", rs)
+                else:
+                    ctx.ob("R2", "EXIT", f, f"undecryptable blob raises {cls}", cls == "ValueError", f"undecryptable blob raises {cls}", rs)
+    # ---- a blob that decrypts: every return hands back the BeaconMetadata parsed from the decrypted bytes ...
+    plain = _Sym("plaintext", truth=True, notnone=True)
+    good = _scenario(ctx, f, d, plain, magic=MAGIC)
+    for r in rets:
+        if r.value is None:
+            ctx.ob("R2", "AGREE", f, "returned object", False, "a bare return hands back None", r)
+            continue
+        shown = src(_inl(fn, r.value))[:80]
+        v = good.value(r, r.value)
+        verdicts = []
+        if isinstance(v, _Sym) and v.label in good.parses:
+            c = good.parses[v.label]
+            cal = ctx.rs.resolve_call(f, c)
+            a0 = c.args[0] if c.args else None
+            av = good.value(fv.stmt_of(c), a0) if a0 is not None else good.NOVAL
+            if cal.struct[2] != "BeaconMetadata" or a0 is None:
+                verdicts.append(False)
+            elif av is plain or _is_result(_inl(fn, a0), dtexts):
+                verdicts.append(True)
+            elif av is good.NOVAL and isinstance(_inl(fn, a0), (ast.Call, ast.Name)) and good.tainted(fv.stmt_of(c), a0):
+                verdicts.append(None)
+            else:
+                verdicts.append(False)
+        elif not good.live(r):
+            continue  # judged by the magic rule below (a good blob must be returned somewhere)
+        else:
+            # the value is not followed by the propagation: every value the returned name may hold (a `= None`
+            # initialisation before the parse is not a value that is returned: the parse dominates the return or raises)
+            from csverif.q import all_origins
+
+            outs = [o for o in all_origins(fn, r.value) if not (isinstance(o, ast.Constant) and o.value is None)]
+            for o in outs:
+                cal = ctx.rs.resolve_call(f, o) if isinstance(o, ast.Call) else None
+                if cal is not None and cal.kind == "struct":
+                    a0 = o.args[0] if o.args else None
+                    if cal.struct[2] != "BeaconMetadata" or a0 is None:
+                        verdicts.append(False)
+                    elif _is_result(_inl(fn, a0), dtexts):
+                        verdicts.append(True)
+                    else:
+                        verdicts.append(None if isinstance(_inl(fn, a0), (ast.Call, ast.Name)) and good.tainted(fv.stmt_of(o), a0) else False)
+                else:
+                    verdicts.append(None if good.tainted(r, o) or good.tainted(r, inline(fn, o)) else False)
+            if not outs:
+                verdicts.append(False)
+        if False in verdicts:
+            ctx.ob("R2", "AGREE", f, "returned object", False, f"returns `{shown}`: not (only) the BeaconMetadata parsed from the decrypted bytes", r)
+        elif None in verdicts:
+            ctx.undecided("R2", "AGREE", f, "returned object", f"the returned value `{shown}` is computed from the decrypted bytes in a way that is not a direct struct parse", r)
+        else:
+            ctx.ob("R2", "AGREE", f, "returned object", True, "returns BeaconMetadata parsed from the decrypted bytes", r)
+    # ---- ... and only if its magic is 0xBEEF
+    wrong = (0, 1, MAGIC - 1, MAGIC + 1, 0xBEEF0000, 0xEFBE0000, 0x1BEEF, 0xFFFFFFFF)
+    flows = {w: _scenario(ctx, f, d, plain, magic=w) for w in wrong}
+    tested = any(isinstance(k, tuple) and k[1] == "magic" for fl in [good, *flows.values()] for k in fl.fixed.hits)
+    accepted = any(good.live(r) for r in rets)
+    where = rets[0] if len(rets) == 1 else f.node
+    if not tested:
+        und = [s for fl in flows.values() for s in fl.opaque] + good.opaque
+        if und:
+            ctx.undecided("R2", "DOM", f, "magic test", f"the magic of the parsed object is tested in a way that could not be evaluated: {[src(s.test)[:50] for s in und][:2]}", where)
+        else:
+            ctx.ob("R2", "DOM", f, "magic test", False, "no test of the magic field of the parsed object", where)
+    else:
+        leaks = [w for w in wrong if any(flows[w].live(r) for r in rets)]
+        opq = [s for w in leaks for s in flows[w].opaque]
+        detail = f"magic values with which a return is still reachable: {[hex(w) for w in leaks]} (none allowed); metadata with magic 0xBEEF is returned={accepted}"
+        if (leaks and opq) or (not accepted and good.opaque):
+            ctx.undecided("R2", "DOM", f, "magic test", detail + f"; a test could not be evaluated: {[src(s.test)[:50] for s in (opq or good.opaque)][:2]}", where)
+        else:
+            ctx.ob("R2", "DOM", f, "magic test", not leaks and accepted, detail, where)
+        if not leaks:
+            for rs in cfg.raise_stmts():
+                if flows[0].live(rs) and not good.live(rs):
+                    cls = _raise_cls(fv, rs)
+                    if cls is None:
+                        ctx.undecided("R2", "EXIT", f, "bad magic: raised class", f"class of `{src(rs)[:60]}` not determined", rs)
+                    else:
+                        ctx.ob("R2", "EXIT", f, f"bad magic raises {cls}", cls == "ValueError", f"bad magic raises {cls}", rs)
+
+
+# ============================================================================================================== R3 / R4
+def _is_metadata_obj(ctx, f, e):
+    return _is_struct(ctx, f, e, "BeaconMetadata") or _is_struct(ctx, f, origin(f.node, e), "BeaconMetadata")
+
+
+def _table_writes(ctx, f):
+    """Field writes of the form `for name, value in <literal table>: setattr(<BeaconMetadata>, name, value)`:
+    ([(field, value expression, loop)], dynamic) - dynamic is True when a BeaconMetadata object is written through a
+    setattr whose field name is not resolved (the set of fields it writes is then unknown)."""
+    fn = f.node
+    fv = FuncView.of(fn)
+    out, dynamic = [], False
+    for c in fn_calls(fn):
+        if not (dotted(c.func) == "setattr" and len(c.args) == 3 and not c.keywords and _is_metadata_obj(ctx, f, c.args[0])):
+            continue
+        if isinstance(_c(inline(fn, c.args[1]), _cenv(ctx, f)), str):
+            continue  # a plain store, see _attr_stores
+        loop = fv.enclosing(c, (ast.For,))
+        rows = None
+        if loop is not None and isinstance(loop.target, (ast.Tuple, ast.List)) and len(loop.target.elts) == 2 and all(isinstance(x, ast.Name) for x in loop.target.elts) \
+                and [dotted(c.args[1]), dotted(c.args[2])] == [x.id for x in loop.target.elts]:
+            it = inline(fn, loop.iter)
+            if isinstance(it, ast.Call) and isinstance(it.func, ast.Attribute) and it.func.attr == "items" and not it.args and isinstance(it.func.value, ast.Dict):
+                rows = list(zip(it.func.value.keys, it.func.value.values))
+            elif isinstance(it, (ast.Tuple, ast.List)) and all(isinstance(r, (ast.Tuple, ast.List)) and len(r.elts) == 2 for r in it.elts):
+                rows = [(r.elts[0], r.elts[1]) for r in it.elts]
+            names = {x.id for x in loop.target.elts}
+            rebound = any(isinstance(n, ast.Name) and isinstance(n.ctx, ast.Store) and n.id in names for b in loop.body for n in ast.walk(b))
+            if rebound:
+                rows = None
+        if rows is None or any(not isinstance(_c(k, _cenv(ctx, f)), str) for k, _v in rows if k is not None) or any(k is None for k, _v in rows):
+            dynamic = True
+            continue
+        out += [(_c(k, _cenv(ctx, f)), v, loop) for k, v in rows]
+    return out, dynamic
+
+
+def _metadata_field_values(ctx, f, field):
+    """([(node, value)] written into field `field` of BeaconMetadata objects in f: attribute stores on struct-typed
+    objects, constructor keywords, rows of a setattr table; dynamic = some write could not be resolved)."""
+    out = []
+    for st, t, v in _attr_stores(f.node, field):
+        if _is_metadata_obj(ctx, f, t.value):
+            out.append((st, v))
+    for c in fn_calls(f.node):
+        cal = ctx.rs.resolve_call(f, c)
+        if cal.kind == "struct" and cal.struct[2] == "BeaconMetadata" and kwarg(c, field) is not None:
+            out.append((c, kwarg(c, field)))
+    rows, dynamic = _table_writes(ctx, f)
+    out += [(loop, v) for k, v, loop in rows if k == field]
+    return out, dynamic
+
+
+def _builds_metadata(ctx, f):
+    return any(ctx.rs.resolve_call(f, c).kind == "struct" and ctx.rs.resolve_call(f, c).struct[2] == "BeaconMetadata" for c in fn_calls(f.node))
+
+
+def _serialisations(fn, mp):
+    """Calls that serialise the metadata parameter: m.dumps(), bytes(m)."""
+    out = []
+    for c in fn_calls(fn):
+        if isinstance(c.func, ast.Attribute) and c.func.attr == "dumps" and not c.args and _is_param(fn, c.func.value, mp):
+            out.append(c)
+        elif dotted(c.func) == "bytes" and len(c.args) == 1 and _is_param(fn, c.args[0], mp):
+            out.append(c)
+    return out
 
 
 def r3_r4(ctx):
     run = ctx.repo.func("client.HttpBeaconClient.run")
-    mags = [s for s in statements(run.node) if isinstance(s, ast.Assign) and (dotted(s.targets[0]) or "").endswith(".magic")]
-    ok = len(mags) == 1 and _c(mags[0].value) == MAGIC
-    ctx.ob("R3", "AGREE", run, "metadata.magic = 0xBEEF", ok, f"client writes magic {[src(m.value) for m in mags]}; decoder requires 0xBEEF")
-    enc, dec = ctx.repo.func("c2.encrypt_metadata"), ctx.repo.func("c2.decrypt_metadata")
-    ce = [c for c in fn_calls(enc.node) if dotted(c.func) == "PKCS1_v1_5.new"]
-    cd_ = [c for c in fn_calls(dec.node) if dotted(c.func) == "PKCS1_v1_5.new"]
-    ok = len(ce) == 1 and len(cd_) == 1 and dotted(ce[0].args[0]) == params(enc.node)[1] and dotted(cd_[0].args[0]) == params(dec.node)[1]
-    ctx.ob("R4", "AGREE", enc, "PKCS1_v1_5.new", ok, "both sides build PKCS1_v1_5 over their key parameter" if ok else "cipher construction differs between encrypt_metadata and decrypt_metadata")
+    mags, dynamic = _metadata_field_values(ctx, run, "magic")
+    if mags:
+        vals = [_c(inline(run.node, v), _cenv(ctx, run)) if v is not None and not isinstance(v, tuple) else None for _s, v in mags]
+        ok = all(v == MAGIC for v in vals)
+        ctx.ob("R3", "AGREE", run, "metadata.magic = 0xBEEF", ok, f"client writes magic {[hex(v) if isinstance(v, int) else v for v in vals]}; decoder requires 0xBEEF")
+    elif _builds_metadata(ctx, run) and not dynamic:
+        ctx.ob("R3", "AGREE", run, "metadata.magic = 0xBEEF", False, "the client builds a BeaconMetadata but never sets its magic; decoder requires 0xBEEF")
+    else:
+        ctx.undecided("R3", "AGREE", run, "metadata.magic = 0xBEEF", "no BeaconMetadata construction / magic store located in run()")
+
+    enc, mp, kp = _encrypt_subject(ctx)
+    fn = enc.node
+    dec = ctx.repo.func("c2.decrypt_metadata")
     cfg = ctx.cfg(enc)
-    fv = FuncView.of(enc.node)
-    mp = params(enc.node)[0]
-    dumps = [c for c in fn_calls(enc.node) if isinstance(c.func, ast.Attribute) and c.func.attr == "dumps" and dotted(c.func.value) == mp]
-    sets = [s for s in statements(enc.node) if isinstance(s, ast.Assign) and dotted(s.targets[0]) == f"{mp}.size"]
-    ok = len(dumps) == 1 and len(sets) == 1 and cfg.dominates(cfg.node(sets[0]), cfg.node(fv.stmt_of(dumps[0]))) and cfg.node(sets[0]) != cfg.node(fv.stmt_of(dumps[0]))
-    ctx.ob("R4", "DOM", enc, "size set before dumps()", ok, "the size field is made consistent before serialising" if ok else "metadata is serialised before/without updating its size field")
-    encs = [c for c in fn_calls(enc.node) if isinstance(c.func, ast.Attribute) and c.func.attr == "encrypt"]
-    ok = len(encs) == 1 and encs[0].args and origin(enc.node, encs[0].args[0]) is (dumps[0] if dumps else None)
-    rets = [s for s in statements(enc.node) if isinstance(s, ast.Return)]
-    ok = ok and len(rets) == 1 and origin(enc.node, rets[0].value) is encs[0]
-    ctx.ob("R4", "AGREE", enc, "return cipher.encrypt(metadata.dumps())", bool(ok), "encrypts exactly the serialised metadata and returns the ciphertext" if ok else "does not return cipher.encrypt(metadata.dumps())")
-    # every info length that fits the modulus must be accepted: an explicit rejection in encrypt_metadata must use the
-    # exact PKCS#1 v1.5 bound (len > k - 11); the size field is updated unconditionally
-    from csverif.astutil import pmatch
-    from csverif.q import dominating_conditions
-    for r in ctx.cfg(enc).raise_stmts():
-        conds = [n for t, pol, n in dominating_conditions(ctx, enc, r) if pol]
-        exact = any(pmatch("len($d) > $k.size_in_bytes() - 11", c) is not None for c in conds)
-        ctx.ob("R4", "ABS", enc, "explicit rejection " + src(r)[:40], bool(exact), "rejects exactly the lengths above k - 11" if exact else
-               f"encrypt_metadata rejects under {[src(c) for c in conds]}: not the exact PKCS#1 v1.5 bound `len(data) > k - 11` (a length that fits is refused)", r)
-    if sets:
-        unconditional = not dominating_conditions(ctx, enc, sets[0])
-        ctx.ob("R4", "DOM", enc, "size updated unconditionally", unconditional, "the size field is recomputed on every call" if unconditional else
-               f"size is only updated under {[t for t, p, n in dominating_conditions(ctx, enc, sets[0])]}: a stale size is encrypted")
+    fv = FuncView.of(fn)
+    # ---- both directions use PKCS#1 v1.5 over their key parameter
+    ce = _cipher_calls(ctx, enc, "encrypt")
+    cd_ = _cipher_calls(ctx, dec, "decrypt")
+    if len(ce) != 1 or len(cd_) != 1 or ce[0][1] is None or cd_[0][1] is None:
+        ctx.undecided("R4", "AGREE", enc, "PKCS1_v1_5.new", f"cipher construction not located ({len(ce)} encrypt / {len(cd_)} decrypt calls on a locally constructed cipher)")
+    else:
+        sides = []
+        for g, (_c0, ctor) in ((enc, ce[0]), (dec, cd_[0])):
+            gp = params(g.node)
+            key = _arg(ctor, 0, "key")
+            sides.append((_ext_name(ctx, g, ctor), key is not None and len(gp) > 1 and _is_param(g.node, key, gp[1])))
+        ok = all(n.endswith("PKCS1_v1_5.new") and k for n, k in sides)
+        ctx.ob("R4", "AGREE", enc, "PKCS1_v1_5.new", ok, "both sides build PKCS1_v1_5 over their key parameter" if ok else
+               f"cipher construction differs between encrypt_metadata and decrypt_metadata: (constructor, over the key parameter) = {sides}")
+    # ---- what is encrypted is the serialised metadata, and the ciphertext is what is returned
+    sers = _serialisations(fn, mp) if mp else []
+    plain = None
+    if len(ce) == 1:
+        e = ce[0][0]
+        pa = _arg(e, 0, "message")
+        po = _unbytes(origin(fn, pa)) if pa is not None else None
+        if isinstance(po, ast.Call) and dotted(po.func) == "bytes" and po in sers:
+            plain = po
+        elif po is not None and any(po is s for s in sers):
+            plain = po
+        elif pa is not None:
+            # bytes(m.dumps()) and the like: look through value-preserving wrappers on the original nodes
+            w = origin(fn, pa)
+            while isinstance(w, ast.Call) and dotted(w.func) == "bytes" and len(w.args) == 1 and not any(w is s for s in sers):
+                w = origin(fn, w.args[0])
+            plain = w if any(w is s for s in sers) else None
+        rets = [s for s in statements(fn) if isinstance(s, ast.Return)]
+        if pa is None or not rets:
+            ctx.undecided("R4", "AGREE", enc, "return cipher.encrypt(metadata.dumps())", "plaintext argument / return not located")
+        elif plain is None and isinstance(_inl(fn, pa), ast.Call) and _mentions(_inl(fn, pa), {src(s) for s in sers} | {src(inline(fn, s)) for s in sers} | {mp}):
+            ctx.undecided("R4", "AGREE", enc, "return cipher.encrypt(metadata.dumps())", f"the plaintext `{src(_inl(fn, pa))[:70]}` is computed from the serialised metadata in a way the rule does not follow")
+        else:
+            bad = [r for r in rets if r.value is None or _unbytes(origin(fn, r.value)) is not e]
+            und = [r for r in bad if r.value is not None and _mentions(inline(fn, r.value), {src(inline(fn, e)), src(e)})]
+            ok = plain is not None and not bad
+            if plain is not None and bad and len(und) == len(bad):
+                ctx.undecided("R4", "AGREE", enc, "return cipher.encrypt(metadata.dumps())", f"the ciphertext is post-processed before it is returned: `{src(_inl(fn, und[0].value))[:70]}`")
+            else:
+                ctx.ob("R4", "AGREE", enc, "return cipher.encrypt(metadata.dumps())", bool(ok), "encrypts exactly the serialised metadata and returns the ciphertext" if ok else
+                       f"does not return cipher.encrypt(<serialised metadata parameter>): plaintext `{src(_inl(fn, pa))[:60]}`, returns {[src(_inl(fn, r.value))[:40] if r.value is not None else None for r in rets]}")
+    # ---- the size field is consistent when the metadata is serialised: every path to the serialisation passes a store
+    # of the size field (or a test that has just established that it already holds the stored value)
+    stores = _size_stores(enc, mp) if mp else []
+    if plain is None:
+        if len(ce) == 1 and sers:
+            pass  # reported above
+        else:
+            ctx.undecided("R4", "DOM", enc, "size set before dumps()", "the serialisation of the metadata parameter that is encrypted was not located")
+    else:
+        ser_st = fv.stmt_of(plain)
+        via = [cfg.node(st) for st, _t, _v in stores if cfg.has(st) and st is not ser_st]
+        texts = {src(_inl(fn, v)) for _s, _t, v in stores if v is not None and not isinstance(v, tuple)}
+        for n, st in cfg.stmt.items():
+            if isinstance(st, ast.If):
+                t = inline(fn, st.test)
+                if isinstance(t, ast.Compare) and len(t.ops) == 1 and isinstance(t.ops[0], (ast.Eq, ast.NotEq)):
+                    l, r = t.left, t.comparators[0]
+                    for a, b in ((l, r), (r, l)):
+                        if isinstance(a, ast.Attribute) and a.attr == "size" and _is_param(fn, a.value, mp) and src(_unbytes(b)) in texts:
+                            via.append(cfg.edge_node(st, "true" if isinstance(t.ops[0], ast.Eq) else "false"))
+        ok = bool(stores) and cfg.has(ser_st) and cfg.all_paths_pass(ENTRY, cfg.node(ser_st), via)
+        conds = sorted({t for st, _t, _v in stores for t, _p, _n in dominating_conditions(ctx, enc, st)})
+        ctx.ob("R4", "DOM", enc, "size set before dumps()", ok, "the size field is made consistent on every path before serialising" if ok else
+               ("metadata is serialised without updating its size field" if not stores else
+                f"a path reaches the serialisation without passing the store of the size field (store is conditional on {conds} / comes later): a stale size is encrypted"), ser_st)
+    # ---- every info length that fits the modulus must be accepted: an explicit rejection in encrypt_metadata must use the
+    # exact PKCS#1 v1.5 bound (len > k - 11)
+    latom = _len_atom(fn, mp) if mp else (lambda e: None)
+
+    def atom(e):
+        a = latom(e)
+        if a:
+            return a
+        if isinstance(e, ast.Call) and not e.args and not e.keywords and isinstance(e.func, ast.Attribute) and e.func.attr == "size_in_bytes" and kp and _is_param(fn, e.func.value, kp):
+            return "K"
+        return None
+
+    for r in cfg.raise_stmts():
+        if _in_handler(fv, r) is not None:
+            continue  # translating / re-raising an exception that was already raised rejects nothing new
+        forms = []
+        for _t, pol, n in dominating_conditions(ctx, enc, r):
+            n = inline(fn, n)
+            if isinstance(n, ast.Compare) and len(n.ops) == 1:
+                forms.append((_gt0(n.left, n.ops[0], n.comparators[0], pol, atom), n, pol))
+        # the condition is `len - k + c > 0`: with c == 11 exactly the lengths that do not fit, with c < 11 only lengths the
+        # library refuses anyway; c > 11 (or a bound that ignores the key size) refuses a length that fits
+        def fits(g):
+            return g is not None and set(g) <= {"LEN", "K", ""} and g.get("LEN") == 1 and g.get("K") == -1 and g.get("", 0) <= 11
+
+        exact = [1 for g, _n, _p in forms if fits(g)]
+        wrong = [(g, n, p) for g, n, p in forms if g is not None and g.get("LEN") and set(g) <= {"LEN", "K", ""} and not fits(g)]
+        text = "explicit rejection of a plaintext length"
+        if exact and not wrong:
+            ctx.ob("R4", "ABS", enc, text, True, "rejects only lengths above k - 11 (which PKCS#1 v1.5 cannot encrypt)", r)
+        elif wrong:
+            g, n, p = wrong[0]
+            ctx.ob("R4", "ABS", enc, text, False, f"encrypt_metadata rejects when `{src(n)}` is {p}: not the exact PKCS#1 v1.5 bound `len(data) > k - 11` (a length that fits is refused, or the bound does not follow the key size)", r)
+        else:
+            ctx.undecided("R4", "ABS", enc, text, f"`{src(r)[:50]}` is raised under {[src(n)[:50] for _g, n, _p in forms] or 'no length condition'}: not recognised as a bound on the plaintext length", r)
+
+
+# ================================================================================================================== R5
+class _D:
+    """Classification of an expression: kind in aes | hmac | pair | keys | bad; seed = expression the SHA-256 is taken of."""
+
+    def __init__(self, kind, seed=None, why=""):
+        self.kind, self.seed, self.why = kind, seed, why
+
+    def __repr__(self):
+        return f"{self.kind}({src(self.seed) if self.seed is not None else ''}{self.why})"
+
+
+def _digest_of(ctx, f, e):
+    """(algorithm, data expression | None) if the inlined expression e is `<hashlib constructor>(data).digest()`."""
+    if not (isinstance(e, ast.Call) and isinstance(e.func, ast.Attribute) and e.func.attr == "digest" and not e.args and not e.keywords):
+        return None
+    h = e.func.value
+    if not isinstance(h, ast.Call):
+        return None
+    name = _ext_name(ctx, f, h)
+    if name == "hashlib.new" or name.endswith(".hashlib.new"):
+        algo = _c(_arg(h, 0, "name"))
+        return (str(algo).lower().replace("-", ""), _arg(h, 1, "data")) if isinstance(algo, str) else None
+    if name.startswith("hashlib."):
+        a0 = h.args[0] if h.args and not isinstance(h.args[0], ast.Starred) else (kwarg(h, "string") or kwarg(h, "data"))
+        return name.split(".", 1)[1].lower(), a0
+    if name.startswith("Crypto.Hash.") and name.endswith(".new"):
+        return name.split(".")[2].lower(), _arg(h, 0, "data")
+    if name in ("sha256", "sha1", "md5", "sha512", "sha384", "sha224"):
+        return name, (h.args[0] if h.args else None)
+    return None
+
+
+def _half(ctx, f, sub, base):
+    """Which half of a 32-byte digest the (inlined) slice expression `sub` of digest expression `base` selects: 'aes'
+    (first 16), 'hmac' (last 16), 'bad', or None (bounds not evaluable).  The slice is evaluated on a dummy digest, so
+    `d[:16]`, `d[0:16]`, `d[:-16]`, `d[:len(d) // 2]`, `d[:KEY_SIZE]` are all the first half."""
+    dummy = bytes(range(32))
+    try:
+        v = _val(sub, _Env({src(base): dummy}, consts=_cenv(ctx, f)))
+    except _Unk:
+        return None
+    return "aes" if v == dummy[:16] else "hmac" if v == dummy[16:] else "bad"
+
+
+def _item(d, i):
+    if d is None or d.kind == "bad":
+        return d
+    if d.kind in ("pair", "keys") and i in (0, 1):
+        return _D("aes" if i == 0 else "hmac", d.seed)
+    return None
+
+
+def _agree(ds):
+    if not ds or any(d is None for d in ds):
+        return None
+    for d in ds:
+        if d.kind == "bad":
+            return d
+    if len({d.kind for d in ds}) != 1 or len({src(d.seed) if d.seed is not None else None for d in ds}) != 1:
+        return None
+    return ds[0]
+
+
+def _subst(e, binding):
+    class _S(ast.NodeTransformer):
+        ok = True
+
+        def visit_Name(self, node):
+            if node.id in binding:
+                if binding[node.id] is None:
+                    _S.ok = False
+                    return node
+                return copy.deepcopy(binding[node.id])
+            return node
+
+    _S.ok = True
+    out = _S().visit(copy.deepcopy(e))
+    return out if _S.ok else None
+
+
+def _is_method(g):
+    if g.cls is None:
+        return False
+    return not any(dotted(d) == "staticmethod" for d in getattr(g.node, "decorator_list", []))
+
+
+def _summary(ctx, g, depth):
+    """Classification of what package function g returns, seed expressed over g's parameters."""
+    cache = ctx.__dict__.setdefault("_c06_summary", {})
+    if g.fq in cache:
+        return cache[g.fq]
+    cache[g.fq] = None  # recursion guard
+    rets = [s for s in statements(g.node) if isinstance(s, ast.Return)]
+    d = _agree([_classify(ctx, g, r.value, depth + 1) if r.value is not None else None for r in rets])
+    if d is not None and d.kind != "bad":
+        seed = inline(g.node, d.seed) if d.seed is not None else None
+        d = _D(d.kind, seed)
+    cache[g.fq] = d
+    return d
+
+
+def _class_fields(ctx, fq):
+    mname, _, q = fq.partition(".")
+    node = ctx.repo.modules[mname].classes.get(q) if mname in ctx.repo.modules else None
+    if node is None:
+        return None
+    return [st.target.id for st in node.body if isinstance(st, ast.AnnAssign) and isinstance(st.target, ast.Name) and dotted(st.annotation) != "ClassVar"]
+
+
+def _bind_slots(ctx, f, call, depth=0):
+    """{parameter / field name: expression | _D} of a call to a package function or class; star arguments that are a
+    derived pair are spread over two positions.  None if the callee's parameters are not known."""
+    cal = ctx.rs.resolve_call(f, call)
+    names = None
+    if cal.kind == "class":
+        init = cal.fq + ".__init__"
+        if ctx.repo.has_func(init):
+            names = params(ctx.repo.func(init).node)[1:]
+        else:
+            names = _class_fields(ctx, cal.fq)
+    elif cal.kind == "func" and cal.func is not None and not isinstance(cal.func.node, ast.Lambda):
+        names = params(cal.func.node)
+        if _is_method(cal.func) and names:
+            names = names[1:]
+    if names is None:
+        if any(k.arg in _SLOTS for k in call.keywords):
+            return {k.arg: k.value for k in call.keywords if k.arg}
+        return None
+    out = {}
+    pos = 0
+    for a in call.args:
+        if isinstance(a, ast.Starred):
+            d = _classify(ctx, f, a.value, depth + 1)
+            if d is not None and d.kind == "pair":
+                for i in (0, 1):
+                    if pos < len(names):
+                        out[names[pos]] = _item(d, i)
+                    pos += 1
+                continue
+            if d is not None and d.kind == "bad":
+                for i in (0, 1):
+                    if pos < len(names):
+                        out[names[pos]] = d
+                    pos += 1
+                continue
+            break
+        if pos < len(names):
+            out[names[pos]] = a
+        pos += 1
+    for k in call.keywords:
+        if k.arg:
+            out[k.arg] = k.value
+    out["*"] = None if any(k.arg is None for k in call.keywords) else list(names)  # the callee's slot names (None: `**kw` may bind more)
+    return out
+
+
+def _classify(ctx, f, e, depth=0):
+    """_D of expression e of function f, or None if e is not (recognisably) derived session-key material."""
+    if e is None or depth > 10:
+        return None
+    if isinstance(e, _D):
+        return e
+    if isinstance(e, tuple):  # (value, index) of a tuple-unpacking assignment
+        return _item(_classify(ctx, f, e[0], depth + 1), e[1])
+    fn = f.node
+    e = _unbytes(e)
+    if isinstance(e, ast.Name):
+        if e.id in params(fn):
+            return None
+        res = []
+        for st, v in assignments_to(fn, e.id):
+            if v is not None:
+                res.append(_classify(ctx, f, v, depth + 1))
+            elif isinstance(st, ast.Assign):
+                got = None
+                for t in st.targets:
+                    for te, tv in _pairs(t, st.value):
+                        if isinstance(te, ast.Name) and te.id == e.id:
+                            got = _classify(ctx, f, tv, depth + 1)
+                res.append(got)
+            else:
+                res.append(None)
+        return _agree(res)
+    if isinstance(e, ast.Attribute):
+        b = _classify(ctx, f, e.value, depth + 1)
+        if b is not None and b.kind == "bad":
+            return b
+        if b is not None and b.kind == "keys" and e.attr in _SLOTS:
+            return _D(_SLOTS[e.attr], b.seed)
+        d = dotted(e)
+        if d and isinstance(e.ctx, ast.Load):
+            vals = [v for _s, t, v in _attr_stores(fn, e.attr) if dotted(t) == d]
+            if vals:
+                return _agree([_classify(ctx, f, v, depth + 1) if v is not None else None for v in vals])
+        return None
+    if isinstance(e, ast.Subscript):
+        if isinstance(e.slice, ast.Slice):
+            whole = inline(fn, e)
+            base = whole.value if isinstance(whole, ast.Subscript) else None
+            dg = _digest_of(ctx, f, base) if base is not None else None
+            if dg is None:
+                return None
+            algo, data = dg
+            # prefer the original node of the hashed data (keeps node identity for `_def_node`)
+            o = origin(fn, e.value)
+            if isinstance(o, ast.Call) and isinstance(o.func, ast.Attribute) and o.func.attr == "digest":
+                ho = origin(fn, o.func.value)
+                dgo = _digest_of(ctx, f, ast.Call(func=ast.Attribute(value=ho, attr="digest", ctx=ast.Load()), args=[], keywords=[])) if isinstance(ho, ast.Call) else None
+                if dgo is not None and dgo[0] == algo and dgo[1] is not None:
+                    data = dgo[1]
+            if algo != "sha256":
+                return _D("bad", None, f"the digest is {algo}, not SHA-256")
+            h = _half(ctx, f, whole, base)
+            if h is None or data is None:
+                return None
+            if h == "bad":
+                return _D("bad", None, f"`{src(e.slice)}` of the SHA-256 digest is neither its first nor its second half")
+            return _D(h, data)
+        i = _c(e.slice)
+        if isinstance(i, int):
+            return _item(_classify(ctx, f, e.value, depth + 1), i)
+        return None
+    if isinstance(e, ast.Tuple) and len(e.elts) == 2:
+        a, b = (_classify(ctx, f, x, depth + 1) for x in e.elts)
+        if a is None or b is None:
+            return None
+        for x in (a, b):
+            if x.kind == "bad":
+                return x
+        if (a.kind, b.kind) == ("aes", "hmac"):
+            return _D("pair", a.seed) if src(a.seed) == src(b.seed) else _D("bad", None, "the two halves are taken of different digests")
+        if (a.kind, b.kind) == ("hmac", "aes"):
+            return _D("bad", None, "the halves are swapped: (second half, first half) instead of (aes_key, hmac_key)")
+        if a.kind in ("aes", "hmac") and b.kind in ("aes", "hmac"):
+            return _D("bad", None, f"the pair is ({a.kind} half, {b.kind} half) instead of (aes half, hmac half)")
+        return None
+    if isinstance(e, ast.Call):
+        cal = ctx.rs.resolve_call(f, e)
+        if cal.kind == "func" and cal.func is not None and not isinstance(cal.func.node, ast.Lambda):
+            g = cal.func
+            s = _summary(ctx, g, depth)
+            if s is not None and s.kind == "bad" and g.fq != _DERIVE:
+                return s
+            if (s is None or s.kind == "bad") and g.fq == _DERIVE:
+                # the contract of the derivation function (its body has an obligation of its own)
+                ps = params(g.node)
+                s = _D("pair", ast.Name(id=ps[0], ctx=ast.Load())) if ps else None
+            if s is None:
+                return None
+            if s.seed is None:
+                return _D(s.kind, None)
+            b = bind_args(e, g.node, skip_self=_is_method(g))
+            return _D(s.kind, _subst(s.seed, {p: b.get(p) for p in params(g.node)}))
+        if cal.kind == "class":
+            slots = _bind_slots(ctx, f, e, depth)
+            if slots and "aes_key" in slots:
+                a = _classify(ctx, f, slots["aes_key"], depth + 1)
+                if a is not None and a.kind in ("aes", "bad"):
+                    return a if a.kind == "bad" else _D("keys", a.seed)
+        return None
+    return None
+
+
+def _relevant(fn):
+    for n in ast.walk(fn):
+        t = n.attr if isinstance(n, ast.Attribute) else n.id if isinstance(n, ast.Name) else n.arg if isinstance(n, (ast.keyword, ast.arg)) else None
+        if t and (t in _SLOTS or t in ("derive_aes_hmac_keys", "from_aes_rand", "from_beacon_metadata", "BeaconKeys", "digest")):
+            return True
+    return False
+
+
+def _sinks(ctx, f):
+    """[(description, node, {slot: _D})]: places in f where classified key material enters an aes_key / hmac_key slot."""
+    out = []
+    fn = f.node
+    for st in statements(fn):
+        if isinstance(st, (ast.Assign, ast.AnnAssign)) and st.value is not None:
+            got, names = {}, []
+            for t in (st.targets if isinstance(st, ast.Assign) else [st.target]):
+                for te, v in _pairs(t, st.value):
+                    slot = te.attr if isinstance(te, ast.Attribute) else _c(te.slice) if isinstance(te, ast.Subscript) else None
+                    if slot in _SLOTS:
+                        d = _classify(ctx, f, v)
+                        if d is not None:
+                            got.setdefault(slot, []).append(d)
+                            names.append(dotted(te) or slot)
+            if got:
+                out.append(("store into " + "/".join(sorted(set(names))), st, got))
+    for c in fn_calls(fn):
+        slots = _bind_slots(ctx, f, c)
+        if not slots:
+            continue
+        got = {}
+        for slot, v in slots.items():
+            if slot in _SLOTS:
+                d = _classify(ctx, f, v)
+                if d is not None:
+                    got.setdefault(slot, []).append(d)
+        names = slots.get("*")
+        if any(x.kind == "aes" for x in got.get("aes_key", [])) and names and "hmac_key" in names and not any(isinstance(a, ast.Starred) for a in c.args):
+            h = slots.get("hmac_key")
+            if h is None or (isinstance(h, ast.Constant) and h.value is None):
+                got.setdefault("hmac_key", []).append(_D("bad", None, "nothing (left to its default): the derived HMAC key is dropped"))
+        if got:
+            cal = ctx.rs.resolve_call(f, c)
+            who = cal.fq if cal.kind in ("class", "func") and cal.fq else (cal.func.fq if cal.func is not None else "call")
+            out.append((f"{who}(..)", c, got))
+    return out
+
+
+def _roots(ctx, f, sinks):
+    """[(node, _D)]: the places in f where session keys are derived: a call of a package function that returns derived
+    keys; a half of a SHA-256 digest that reaches one of the key slots `sinks` (a digest slice that is used for something
+    else is no key derivation)."""
+    out = []
+    fn = f.node
+    used = {src(x.seed) for _d, _n, got in sinks for ds in got.values() for x in ds if x.kind != "bad" and x.seed is not None}
+    from csverif.astutil import body_walk
+
+    for n in body_walk(fn):
+        if isinstance(n, ast.Subscript) and isinstance(n.slice, ast.Slice):
+            d = _classify(ctx, f, n)
+            if d is not None and d.kind != "bad" and d.seed is not None and src(d.seed) in used:
+                out.append((n, d))
+        elif isinstance(n, ast.Call):
+            cal = ctx.rs.resolve_call(f, n)
+            if cal.kind == "func" and cal.func is not None:
+                d = _classify(ctx, f, n)
+                if d is not None and d.kind != "bad":
+                    out.append((n, d))
+    return out
+
+
+def _def_node(fn, e, depth=0):
+    """The expression node that defines the value of e: single-definition locals and attributes with a single store in
+    fn are followed (`x = E; self.a = x` makes `x`, `self.a` and E the same value).  Node identity is kept."""
+    e = _unbytes(e)
+    if depth > 8:
+        return e
+    if isinstance(e, ast.Name) and e.id not in params(fn):
+        defs = assignments_to(fn, e.id)
+        if len(defs) == 1 and defs[0][1] is not None:
+            return _def_node(fn, defs[0][1], depth + 1)
+    elif isinstance(e, ast.Attribute) and dotted(e):
+        st = [v for _s, t, v in _attr_stores(fn, e.attr) if dotted(t) == dotted(e)]
+        if len(st) == 1 and st[0] is not None and not isinstance(st[0], tuple):
+            return _def_node(fn, st[0], depth + 1)
+    return e
+
+
+def _same_def(fn, a, b):
+    x, y = _def_node(fn, a), _def_node(fn, b)
+    if x is y:
+        return True
+    pure = (ast.Name, ast.Attribute, ast.Constant)
+    return isinstance(x, pure) and isinstance(y, pure) and src(x) == src(y)
+
+
+def _seed_verdict(f, seed):
+    """(True | False | None, text) - is the seed the 16 random bytes (an `aes_rand` field / the function's own parameter)?
+    None: a value whose origin the rule does not follow (a call, a rebound local)."""
+    if seed is None:
+        return None, "?"
+    fn = f.node
+    s = _inl(fn, seed)
+    t = src(s)
+    if isinstance(s, ast.Attribute):
+        return s.attr == "aes_rand", t
+    if isinstance(s, ast.Subscript) and not isinstance(s.slice, ast.Slice) and isinstance(_c(s.slice), str):
+        return _c(s.slice) == "aes_rand", t
+    if isinstance(s, ast.Name):
+        return (True if s.id in params(fn) else None), t
+    # the very value that is (also) stored as an `aes_rand` attribute
+    dn = _def_node(fn, seed)
+    if any(v is not None and not isinstance(v, tuple) and _def_node(fn, v) is dn for _s, _t, v in _attr_stores(fn, "aes_rand")):
+        return True, t
+    if isinstance(s, ast.Call):
+        # a transformation of the random bytes (strip, slice, re-hash ..) is not the random bytes; any other call is a
+        # value whose origin is not followed
+        uses = any((isinstance(n, ast.Attribute) and n.attr == "aes_rand") or (isinstance(n, ast.Name) and n.id in params(fn) and "aes_rand" in n.id) for n in ast.walk(s))
+        return (False if uses else None), t
+    return False, t
 
 
 def r5(ctx):
-    d = ctx.repo.func("c2.derive_aes_hmac_keys")
+    d = ctx.repo.func(_DERIVE)
+    text = "SHA-256 halves returned as (aes_key, hmac_key)"
     rets = [s for s in statements(d.node) if isinstance(s, ast.Return)]
-    ok = False
-    detail = "return shape not recognised"
-    if len(rets) == 1 and isinstance(rets[0].value, ast.Tuple) and len(rets[0].value.elts) == 2:
-        a, b = (_sha_halves(d.node, e) for e in rets[0].value.elts)
-        p = params(d.node)[0]
-        ok = a == (p, None, 16) and b == (p, 16, None)
-        detail = f"returns (sha256({p})[:16], sha256({p})[16:]) - got {a}, {b}"
-    ctx.ob("R5", "AGREE", d, "return digest[:16], digest[16:]", ok, detail)
-    n = 0
-    # call sites of derive: unpacked as (aes, hmac)
-    for fq, src_expr in (("c2.BeaconKeys.from_aes_rand", None), ("c2.C2Http.__init__", None), ("c2.C2Http.iter_recover_http", None)):
-        f = ctx.repo.func(fq)
-        calls = calls_to(ctx, f, target_fq="c2.derive_aes_hmac_keys")
-        if not calls:
-            ctx.ob("R5", "AGREE", f, "derive_aes_hmac_keys(...)", False, "does not derive the session keys through derive_aes_hmac_keys")
+    ctx.__dict__.pop("_c06_summary", None)
+    res = [_classify(ctx, d, r.value) if r.value is not None else None for r in rets]
+    dp = params(d.node)
+    bad = [x for x in res if x is not None and x.kind == "bad"]
+    if bad:
+        ctx.ob("R5", "AGREE", d, text, False, f"derive_aes_hmac_keys: {bad[0].why}")
+    elif not rets or any(x is None for x in res):
+        ctx.undecided("R5", "AGREE", d, text, f"the returned value(s) {[src(_inl(d.node, r.value))[:70] if r.value is not None else None for r in rets]} are not recognised as slices of a hashlib digest")
+    else:
+        seeds = [src(_inl(d.node, x.seed)) if x.seed is not None else None for x in res]
+        ok = all(x.kind == "pair" for x in res) and bool(dp) and all(s == dp[0] for s in seeds)
+        ctx.ob("R5", "AGREE", d, text, ok, f"returns {[x.kind for x in res]} of sha256({seeds}); required the pair (first half, second half) of sha256({dp[0] if dp else '?'})")
+    # ---- every place where derived key material enters an aes_key / hmac_key slot, in the whole package
+    n_sites = 0
+    located = {}
+    for f in ctx.repo.all_funcs():
+        if isinstance(f.node, ast.Lambda) or not _relevant(f.node):
             continue
-        fv = FuncView.of(f.node)
-        for c in calls:
-            n += 1
-            st = fv.stmt_of(c)
-            tg = st.targets[0] if isinstance(st, ast.Assign) else None
-            names = [dotted(e) for e in tg.elts] if isinstance(tg, ast.Tuple) else []
-            ok = False
-            how = "not unpacked into two names"
-            if len(names) == 2:
-                if all("." in n for n in names):
-                    ok = names[0].split(".")[-1] == "aes_key" and names[1].split(".")[-1] == "hmac_key"
-                    how = f"stored as {names}"
-                else:
-                    # locals: their role is where they go - the key container's aes_key / hmac_key slots
-                    uses = [k for k in fn_calls(f.node) if dotted(k.func) in ("cls", "BeaconKeys")]
-                    good = []
-                    for k in uses:
-                        kws = {kw.arg: dotted(kw.value) for kw in k.keywords}
-                        pos = [dotted(a) for a in k.args]
-                        good.append((kws.get("aes_key") == names[0] and kws.get("hmac_key") == names[1]) or pos[:2] == names)
-                    ok = bool(good) and all(good)
-                    how = f"first result goes to the aes_key slot and second to the hmac_key slot of the key container={ok}"
-            arg = src(c.args[0]) if c.args else "?"
-            arg_ok = arg.split(".")[-1] in ("aes_rand",)
-            ctx.ob("R5", "AGREE", f, "derive_aes_hmac_keys(..) unpacked", ok and arg_ok, f"{how}; derived from {arg} (the 16 random bytes)", c)
-    # BeaconKeys construction from derived keys keeps the order
-    fa = ctx.repo.func("c2.BeaconKeys.from_aes_rand")
-    for c in fn_calls(fa.node):
-        if dotted(c.func) == "cls":
-            kws = {k.arg: dotted(k.value) for k in c.keywords}
-            pos = [dotted(a) for a in c.args]
-            ok = (kws.get("aes_key") is not None and kws.get("hmac_key") is not None) or len(pos) >= 2
-            ctx.ob("R5", "AGREE", fa, "cls(aes_key=.., hmac_key=..)", ok, "both keys are passed to the container" if ok else "a key is dropped when building BeaconKeys", c)
-    ir = ctx.repo.func("c2.C2Http.iter_recover_http")
-    for c in fn_calls(ir.node):
-        if dotted(c.func) == "BeaconKeys":
-            kws = {k.arg: dotted(k.value) for k in c.keywords}
-            pos = [dotted(a) for a in c.args]
-            ok = len(pos) >= 2 or (kws.get("aes_key") is not None and kws.get("hmac_key") is not None)
-            ctx.ob("R5", "AGREE", ir, "BeaconKeys(<derived keys>)", ok, "both derived keys are stored" if ok else "a derived key is dropped", c)
-    fields = [st.target.id for st in ctx.repo.cls("c2.BeaconKeys").body if isinstance(st, ast.AnnAssign) and isinstance(st.target, ast.Name)]
-    ctx.ob("R5", "TABLE", "c2.py::BeaconKeys", "field order", fields[:3] == ["aes_key", "hmac_key", "iv"], f"BeaconKeys fields {fields}")
-    fb = ctx.repo.func("c2.BeaconKeys.from_beacon_metadata")
-    ok = any(dotted(c.func) == "cls.from_aes_rand" and c.args and src(c.args[0]).endswith(".aes_rand") for c in fn_calls(fb.node))
-    ctx.ob("R5", "AGREE", fb, "cls.from_aes_rand(metadata.aes_rand)", ok, "keys from metadata derive from its aes_rand field" if ok else "from_beacon_metadata does not derive from metadata.aes_rand")
-    # the client's inline derivation
-    run = ctx.repo.func("client.HttpBeaconClient.run")
-    got = {}
-    for st in statements(run.node):
-        if isinstance(st, ast.Assign) and dotted(st.targets[0]) in ("self.aes_key", "self.hmac_key"):
-            if isinstance(st.value, ast.Call):
+        sinks = _sinks(ctx, f)
+        roots = _roots(ctx, f, sinks)
+        located[f.fq] = len(sinks) + len(roots)
+        for desc, node, got in sinks:
+            n_sites += 1
+            wrong = [(slot, x) for slot, ds in got.items() for x in ds if x.kind != _SLOTS[slot]]
+            ctx.ob("R5", "AGREE", f, f"derived keys -> {desc}", not wrong,
+                   "; ".join(f"{slot} <- {x.kind} half" for slot, ds in sorted(got.items()) for x in ds) if not wrong else
+                   "; ".join(f"the {slot} slot receives " + (x.why if x.kind == "bad" else f"the {x.kind} half") for slot, x in wrong), node)
+        seen = set()
+        for node, x in roots:
+            v, t = _seed_verdict(f, x.seed)
+            if (v, t) in seen:
                 continue
-            got[dotted(st.targets[0])] = _sha_halves(run.node, st.value)
-        if isinstance(st, ast.Assign) and isinstance(st.targets[0], ast.Tuple) and [dotted(e) for e in st.targets[0].elts] == ["self.aes_key", "self.hmac_key"]:
-            cal = ctx.rs.resolve_call(run, st.value) if isinstance(st.value, ast.Call) else None
-            if cal is not None and cal.kind == "func" and cal.func.fq == "c2.derive_aes_hmac_keys" and src(st.value.args[0]) == "self.aes_rand":
-                got = {"self.aes_key": ("self.aes_rand", None, 16), "self.hmac_key": ("self.aes_rand", 16, None)}
-    ok = got.get("self.aes_key") == ("self.aes_rand", None, 16) and got.get("self.hmac_key") == ("self.aes_rand", 16, None)
-    ctx.ob("R5", "AGREE", run, "client key derivation", ok, f"client derives {got}; required sha256(self.aes_rand)[:16] / [16:]")
-    md = [s for s in statements(run.node) if isinstance(s, ast.Assign) and (dotted(s.targets[0]) or "").endswith("metadata.aes_rand")]
-    ok = len(md) == 1 and dotted(md[0].value) == "self.aes_rand"
-    ctx.ob("R5", "AGREE", run, "metadata.aes_rand = self.aes_rand", ok, "the metadata carries the bytes the client derived its keys from" if ok else "metadata.aes_rand is not the client's aes_rand")
-    ctx.rep.count("derivation_sites", n + 2, floor=5)
+            seen.add((v, t))
+            n_sites += 1
+            if v is None:
+                ctx.undecided("R5", "AGREE", f, "session keys derive from aes_rand", f"the keys are derived from `{t[:60]}`, whose origin is not followed", node)
+            else:
+                ctx.ob("R5", "AGREE", f, "session keys derive from aes_rand", v, f"derived from {t[:60]} (the 16 random bytes)" if v else f"derived from `{t[:60]}`: not the 16 aes_rand bytes", node)
+    for fq in _KEY_FUNCS:
+        f = ctx.repo.func(fq)
+        if not located.get(fq):
+            ctx.undecided("R5", "AGREE", f, "session key derivation", "no derivation of session keys (SHA-256 halves / derive_aes_hmac_keys / BeaconKeys.from_*) was located here")
+    fields = _class_fields(ctx, "c2.BeaconKeys") or []
+    ctx.ob("R5", "TABLE", "c2.py::BeaconKeys", "field order", fields[:3] == ["aes_key", "hmac_key", "iv"], f"BeaconKeys fields {fields}")
+    # ---- the metadata the client sends carries the very bytes its keys are derived from
+    run = ctx.repo.func("client.HttpBeaconClient.run")
+    seeds = [x.seed for _n, x in _roots(ctx, run, _sinks(ctx, run)) if x.seed is not None]
+    carried, dynamic = _metadata_field_values(ctx, run, "aes_rand")
+    text = "metadata.aes_rand = self.aes_rand"
+    if not seeds:
+        ctx.undecided("R5", "AGREE", run, text, "the client's key derivation was not located")
+    elif carried:
+        vals = [v for _s, v in carried]
+        ok = all(v is not None and not isinstance(v, tuple) and all(_same_def(run.node, v, sd) for sd in seeds) for v in vals)
+        ctx.ob("R5", "AGREE", run, text, ok, "the metadata carries the bytes the client derived its keys from" if ok else
+               f"metadata.aes_rand is {[src(_inl(run.node, v)) if v is not None and not isinstance(v, tuple) else None for v in vals]}, the client's keys derive from {sorted({src(_inl(run.node, sd)) for sd in seeds})}")
+    elif _builds_metadata(ctx, run) and not dynamic:
+        ctx.ob("R5", "AGREE", run, text, False, "the client builds a BeaconMetadata but never stores its aes_rand")
+    else:
+        ctx.undecided("R5", "AGREE", run, text, "no BeaconMetadata construction / aes_rand store located in run()")
+    ctx.rep.count("derivation_sites", n_sites, floor=11)
 
 
+# ================================================================================================================== R6
 def r6(ctx):
     """Blobs that do not decrypt / do not parse are rejected with ValueError: escape set of decrypt_metadata."""
     from csverif import effects
@@ -286,16 +1556,19 @@ def r6(ctx):
     effects.check_escape(ctx, "R6", ["c2.decrypt_metadata"], {"ValueError"})
     # the emptiness of the decrypted plaintext is tested as well: some pycryptodome versions hand back b"" instead of
     # the (non-bytes) sentinel for a padding failure
-    f = ctx.repo.func("c2.decrypt_metadata")
-    cfg = ctx.cfg(f)
+    f, d, _ctor = _decrypt_subject(ctx)
+    if d is None:
+        ctx.undecided("R6", "DOM", f, "empty plaintext rejected", "cannot locate the PKCS#1 decryption")
+        return
     fv = FuncView.of(f.node)
-    dec = [c for c in fn_calls(f.node) if isinstance(c.func, ast.Attribute) and c.func.attr == "decrypt"]
-    if len(dec) == 1:
-        dst = fv.stmt_of(dec[0])
-        pt = dotted(dst.targets[0]) if isinstance(dst, ast.Assign) else None
-        from csverif.q import specialise
-        spec = specialise(cfg, {pt: False, f"{pt} is None": False, f"not {pt}": True})
-        parses = [c for c in fn_calls(f.node) if ctx.rs.resolve_call(f, c).kind == "struct"]
-        reach = [c for c in parses if spec.reaches(ENTRY, cfg.node(fv.stmt_of(c)))]
+    fl = _scenario(ctx, f, d, b"")
+    parses = _struct_parses(ctx, f)
+    reach = [c for c in parses if fl.live(fv.stmt_of(c))]
+    dst = fv.stmt_of(d)
+    if reach and fl.opaque:
+        ctx.undecided("R6", "DOM", f, "empty plaintext rejected", f"a test of the decryption result could not be evaluated for b'': {[src(s.test)[:50] for s in fl.opaque]}", dst)
+    elif not parses:
+        ctx.undecided("R6", "DOM", f, "empty plaintext rejected", "no struct parse located in decrypt_metadata", dst)
+    else:
         ctx.ob("R6", "DOM", f, "empty plaintext rejected", not reach, "an empty decryption result never reaches the struct parse" if not reach else
                "an empty (but not None) decryption result reaches BeaconMetadata(pt): with pycryptodome >= 3.20 a padding failure yields b'' for a non-bytes sentinel", dst)
